@@ -499,12 +499,16 @@ def aliased (md : ModDef) : Option (WireList Rec) → Option (WireList Rec)
 def goEqv (md : ModDef) (v last : Option (WireList Rec)) : Bool := structEq v (aliased md last)
 
 /-- one delivery; returns the new module state and the return value of `Handle` (`none` = outside) -/
-def deliverMod (md : ModDef) (ms : ModSt) (bytes : List Nat) : ModSt × Option (Ret × Ret) :=
+def deliverMod (md : ModDef) (ms : ModSt) (bytes : List Nat) (viaBase : Bool := false) : ModSt × Option (Ret × Ret) :=
   if ms.lost then (ms, none) else
   match convOf md bytes, convIdeal md bytes with
   | some c, some ci =>
     -- the model proper
-    let (hm', o) := deliver (fun (_ : Unit) => c) (goEqv md) md.mo ms.hm ()
+    let (hm', o) :=
+      if viaBase then                       -- through a `datasource.Base` with this one handler registered
+        let (hms, o) := baseDeliver (fun (_ : Unit) => c) (goEqv md) md.mo [ms.hm] ()
+        (hms.headD ms.hm, o)
+      else deliver (fun (_ : Unit) => c) (goEqv md) md.mo ms.hm ()
     let ret := match o with | .ret r => r | .panicked => Ret.nil
     -- the property as stated
     let hmI' := (deliver (fun (_ : Unit) => ci) (goEqv md) md.mo ms.hmI ()).1
@@ -546,6 +550,19 @@ def tagsOf (n : String) : Option (List Tag) :=
   | "hotspot.core" => some hotspotCoreTags
   | _ => (findMod n).map (·.tags)
 
+/-- `ds.handle` (the handler directly) / `ds.deliver` (through a `datasource.Base`, from a reused buffer) -/
+def handleOp (spec : Bool) (s : St) (m p : String) (viaBase : Bool) : St × Option String :=
+  match findMod m, payloadBytes p with
+  | some md, some bytes =>
+    let (ms', r) := deliverMod md (getMod s m) bytes viaBase
+    let s' := setMod s m ms'
+    (match r with
+     | none => (s', some "?")
+     | some r =>
+       -- the return value: the spec expects `err` exactly for an undecodable payload
+       (s', some (claim spec ms' (showRet r.1 ++ " ") (showRet r.2 ++ " "))))
+  | _, _ => (s, some "bad-op")
+
 /-- a file operation: the as-is source runs the abstract events (`FileSrc.step`); the property's view delivers the
     current content after a write / re-creation / replacement and the empty source after a removal or rename-away -/
 def fileOp (spec : Bool) (s : St) (arg : Option (List Nat)) (evs : List Nat → List (FileEv (List Nat))) (kind : String) :
@@ -574,17 +591,8 @@ def fileOp (spec : Bool) (s : St) (arg : Option (List Nat)) (evs : List Nat → 
 
 def step (spec : Bool) (s : St) (ts : List String) (_line : String) : St × Option String :=
   match ts with
-  | ["ds.handle", m, p] =>
-    (match findMod m, payloadBytes p with
-     | some md, some bytes =>
-       let (ms', r) := deliverMod md (getMod s m) bytes
-       let s' := setMod s m ms'
-       (match r with
-        | none => (s', some "?")
-        | some r =>
-          -- the return value: the spec expects `err` exactly for an undecodable payload
-          (s', some (claim spec ms' (showRet r.1 ++ " ") (showRet r.2 ++ " "))))
-     | _, _ => (s, some "bad-op"))
+  | ["ds.handle", m, p] => handleOp spec s m p false
+  | ["ds.deliver", m, p] => handleOp spec s m p true
   | ["rules", m] =>
     (match findMod m with
      | some _ => (s, some (claim spec (getMod s m) "" ""))
